@@ -37,7 +37,8 @@ theorem unsupported_pairings_rejected :
         t.2.1.parent = t.2.1 ∧ t.2.1 ∈ supported t.1 ∧ naOk t.2.1 t.2.2 = true) ∧
     (∀ c ∈ EncClass.all, c ≠ .linearModel → (supported c).length = 1) ∧
     (∀ c ∈ EncClass.all, ∀ s ∈ [Stype.text_embedded, Stype.image_embedded, Stype.sequence_numerical],
-        ∀ n ∈ (none :: NA.all.map some), wiseOk c s n = false) := by decide
+        ∀ n ∈ (none :: NA.all.map some), wiseOk c s n = false) := by
+  refine ⟨?_, ?_, ?_⟩ <;> decide +kernel
 
 example : wiseOk .linear .numerical (some .mean) = true ∧ wiseOk .linear .categorical none = false ∧
     wiseOk .timestamp .timestamp (some .zeros) = false := by decide
@@ -67,13 +68,16 @@ def exEnc : Option (Encoder Int) :=
 example : ∃ e o, exEnc = some e ∧ Encoder.WF e 2 ∧ Feat.WF (.num [[1, 2], [3, 4], [5, 6]] : Feat Int) 3 2 ∧
     forward toy e 3 2 2 (.num [[1, 2], [3, 4], [5, 6]]) = some o ∧ o.data.length = 3 ∧
     forward toy e 0 2 2 (.num []) = some ⟨0, 2, 2, []⟩ :=
-  ⟨_, _, rfl, (initModules_wf toy _ _ _ _ _ _ _ trivial rfl).1, ⟨rfl, by decide⟩, rfl, rfl, rfl⟩
+  ⟨_, _, rfl,
+   (initModules_wf toy .numerical (some .mean) exStats 2 (.linear [[1, 2], [3, 4]] [[0, 0], [1, 1]]) .relu _
+      trivial rfl).1,
+   ⟨rfl, by decide⟩, rfl, rfl, rfl⟩
 
 /-- `shape_and_names`: the stype-wise encoder returns `[B, Σ group sizes, ch]` for every `B ≥ 0`; the names are
     the groups' names in canonical stype order; names and every row of the tensor are concatenations over the
     same blocks, block `p` contributing `p.1.c = p.2.length` names and as many columns — i.e. the names are in
     the order of the tensor's column axis -/
-theorem shape_and_names (w : Wise R) (tf : List (Group R)) (B ch : Nat) (x : Out R) (names : List String)
+theorem shape_and_names (w : Wise R) (tf : List (Enc.Group R)) (B ch : Nat) (x : Out R) (names : List String)
     (hg : ∀ s g nm e, tf.find? (·.st == s) = some g → w.colNames.lookup s = some nm → w.encoders.lookup s = some e →
           g.rows = B ∧ e.ch = ch ∧ Encoder.WF e g.cols ∧ Feat.WF g.feat B g.cols)
     (h : wiseForward S w tf = some (x, names)) :
@@ -88,7 +92,7 @@ theorem shape_and_names (w : Wise R) (tf : List (Group R)) (B ch : Nat) (x : Out
 def exCat : Option (Encoder Int) :=
   initModules toy .categorical none [.cat 2] 2 (.embedding [[0, 0], [5, 6], [7, 8]]) .none
 /-- a frame listing its blocks in non-canonical order: categorical first -/
-def exTF : List (Group Int) :=
+def exTF : List (Enc.Group Int) :=
   [⟨.categorical, 2, 1, .cat [[1], [-1]]⟩, ⟨.numerical, 2, 2, .num [[1, 2], [3, 4]]⟩]
 def exWise (e1 e2 : Encoder Int) : Wise Int :=
   { colNames := [(.categorical, ["k"]), (.numerical, ["a", "b"])], encoders := [(.categorical, e2), (.numerical, e1)] }
@@ -131,7 +135,7 @@ theorem embedding_index_injective (ns : List Nat) (c c' : Nat) (hc : c < ns.leng
   embIndex_injective ns c c' hc hc' off off' v v' hoff hoff' h0 h1 h0' h1' heq
 
 example : (List.range 3).flatMap (fun c => (List.range ([3, 2, 4].getD c 0)).map fun v =>
-    embIndex ((embOffsets [3, 2, 4]).getD c 0) v) = [1, 2, 3, 4, 5, 6, 7, 8, 9] := by decide
+    embIndex ((embOffsets [3, 2, 4]).getD c 0) (Int.ofNat v)) = [1, 2, 3, 4, 5, 6, 7, 8, 9] := by decide
 
 /-- `bag_index_in_range`: every entry `-1 ≤ t < n_c` of a multicategorical cell is a legal row of the column's
     `EmbeddingBag(n_c + 1)` after the `+ 1` shift -/
